@@ -105,7 +105,9 @@ def command(rng, cpu, lo):
     if c == "speed":
         return rng.pick(["speed", "speed 0", "speed 1", "speed 1000", "speed 1000000", "speed -1", "speed 2000000", "speed zz", "speed 0x10"])
     if c == "asm":
-        return rng.pick(["asm", "asm 0x%x" % lo, "asm " + malformed(rng)])
+        # org operands that parse to an address near 2^32 make the assembled image wrap and the
+        # copy loop walk 4 GiB byte by byte: minutes, not a hang, so they are kept out of the mix
+        return rng.pick(["asm", "asm 0x%x" % lo, "asm " + rng.pick(["0x", "zz", "12h-", "h", "0xg", "= ", "a" * 2000, "1e5", "''", "\"", "%s%s%n", "0x10 0x"])])
     if c == "run":
         return rng.pick(["run", "run", "run 0x%x" % lo])
     if c in ("help", "info", "registers", "reg", "reset", "step", "stop", "symbols", "display", "no_clear"):
@@ -201,16 +203,24 @@ class C17(Engine):
                     continue
                 lines.append(c)
                 if c.split(" ")[0] in ("run", "call", "step", ""):
-                    sigs.append({"trigger": "during", "k": rng.pick([0, 1, 2, 5, 40, 300, 1500]), "after": len(lines)})
-                if c.startswith("asm") and rng.chance(2, 3):
-                    if cpu in progs.corpus() and rng.chance(2, 3):
-                        body = [rng.pick(progs.corpus()[cpu])[0]]
+                    # Ctrl-C while the program runs; pressed again every `repeat` yields until it stops
+                    sigs.append({"trigger": "during", "k": rng.pick([0, 1, 2, 5, 40, 300, 1500]), "after": len(lines),
+                                 "repeat": rng.pick([7, 50, 400])})
+                if c.split(" ")[0] == "asm":
+                    # asm switches the console to code entry; the block always ends with a blank line
+                    # (inside a block every line, "quit" included, is code by design)
+                    k = rng.below(3)
+                    if k == 0 and cpu in progs.corpus():
+                        body = [rng.pick(progs.corpus()[cpu])[0] for _ in range(rng.range(1, 3))]
+                    elif k == 1:
+                        body = [rng.pick(["bogus line", ".db 1", "quit", "x" * 600, ".org 0x2000", ".include \"nothere\"", "l1:", ".db 1/0"])
+                                for _ in range(rng.range(1, 3))]
                     else:
-                        body = ["bogus line", ".db 1"]
+                        body = []
                     lines += body + [""]
             lines.append("quit")
         elif mode == "-run":
-            sigs.append({"trigger": "during", "k": rng.pick([0, 1, 5, 40, 300, 1500]), "after": 0})
+            sigs.append({"trigger": "during", "k": rng.pick([0, 1, 5, 40, 300, 1500]), "after": 0, "repeat": rng.pick([7, 50, 400])})
         plan["console"] = lines
         plan["sigs"] = sigs
         if rng.chance(1, 10):
@@ -251,13 +261,15 @@ class C17(Engine):
         if plan["serial"] is not None:
             files["/sim/w/ser.in"] = plan["serial"].encode("latin-1")
         env = dict(plan["env"])
-        env["event_ceiling"] = 4000000
+        env["event_ceiling"] = 400000
         o = ex.call(build_request(MODE_UTIL, ["naken_util"] + plan["argv"], files, plan["faults"], plan["console"],
                                   plan["sigs"], env=env, cpu_ms=8000, wall_ms=120000))
         res.absorb(o)
         digests.append(o.digest())
         res.digest = plan_hash(digests)
         ck = crash_key(o, tag)
+        if ck is not None and o.kind() in ("timeout", "event-ceiling"):
+            ck = self.judge_stall(o, plan, res)
         if ck is not None:
             res.viol(ck, how=o.kind(), damage=descr, stderr=o.stderr.decode("latin-1")[:1500], tail=o.text()[-400:])
         else:
@@ -273,6 +285,35 @@ class C17(Engine):
         res.probe("fmt:" + fmt)
         res.probe("mode:" + plan["mode"])
         return res
+
+    ADDR_LINE = re.compile(r"^[ *!>]*(?:0x)?([0-9a-fA-F]+):", re.M)
+
+    def judge_stall(self, o, plan, res):
+        """The process exhausted its CPU or seam-event budget.  Decide between a hang and a
+        legitimately long listing (print/disasm/dump over a range that a damaged or high-placed
+        image made huge): a listing is making progress when the addresses at the start of its
+        most recent lines are (nearly) all different; a loop prints the same addresses again, or
+        nothing.  Returns a violation key or None."""
+        pos = o.console_pos
+        console = plan["console"]
+        text = o.text()
+        if plan["mode"] == "interactive":
+            cmd = console[pos - 1].split(" ")[0] if 0 < pos <= len(console) else ("load" if pos == 0 else "after-quit")
+            if cmd == "" and "\nasm> \n" in text[-3000:] + "\n":
+                cmd = "asm-block"
+        else:
+            cmd = plan["mode"]
+        if pos == 0 and "Type help for a list of commands." not in text:
+            cmd = "load:" + plan["fmt"]
+        if cmd in ("run", "call", "step", "", "-run"):
+            # SIGINT is re-delivered every few yields while these execute
+            return "hang:%s:not-stopped-by-repeated-sigint" % (cmd or "blank-line")
+        tail = text[-200000:]
+        addrs = self.ADDR_LINE.findall(tail)[-3000:]
+        if len(addrs) >= 200 and len(set(addrs)) >= 0.9 * len(addrs):
+            res.probe("long_listing_not_judged")
+            return None
+        return "hang:%s" % cmd
 
     def shrink(self, plan):
         if plan["ndamage"] > 0:
